@@ -184,7 +184,9 @@ func GenIfaceC07(t *rapid.T, maxMembers int, opts C07Opts) *Iface {
 	return i
 }
 
-var docWords = []string{"plain words", "with `backticks` inside", "mentions fmt.Sprintf and json.RawMessage", "context.Context here", "*/ and /* and //", "quotes \" and '", "unicode é😀", "tab\there", "trailing backtick `", "`", "@IMPORTS@", "package main", "%v %s %d"}
+var docWords = []string{"plain words", "with `backticks` inside", "mentions fmt.Sprintf and json.RawMessage", "context.Context here", "*/ and /* and //", "quotes \" and '", "unicode é😀", "tab\there", "trailing backtick `", "`", "@IMPORTS@", "package main", "%v %s %d",
+	// texts the go tool or gofmt would read as directives if they stood in a line comment of the generated file
+	"+build ignore", "+build windows,386 !cgo", "go:build ignore", "go:generate false", "line x.go:1", "export F", "go:embed x", "+build */ ignore"}
 
 func genDocLinesC07(t *rapid.T) []string {
 	n := rapid.IntRange(1, 3).Draw(t, "ndoc")
